@@ -63,3 +63,511 @@ pub fn flat_tokens(text: &str) -> Vec<String> {
 pub fn lexes(text: &str) -> bool {
     TokenStream::from_str(text).is_ok()
 }
+
+// ---------------------------------------------------------------------------------------------
+// syn inventory
+
+use quote::ToTokens;
+use std::collections::BTreeMap;
+
+pub fn norm<T: ToTokens>(t: &T) -> String {
+    flat_tokens(&t.to_token_stream().to_string()).join(" ")
+}
+
+#[derive(Clone, Debug, Default, PartialEq, Eq)]
+pub struct Field {
+    pub name: String,
+    pub vis: String,
+    pub ty: String,
+}
+
+#[derive(Clone, Debug, Default, PartialEq, Eq)]
+pub struct Item {
+    /// module path, "" for the root
+    pub module: String,
+    /// struct union enum type const static fn foreign_fn foreign_static impl use mod_decl macro other
+    pub kind: String,
+    pub name: String,
+    /// normalised token text of the whole item (for foreign items: the item inside the block)
+    pub text: String,
+    pub derives: Vec<String>,
+    pub reprs: Vec<String>,
+    /// all outer attributes, normalised (incl. doc)
+    pub attrs: Vec<String>,
+    pub generics: Vec<String>,
+    pub fields: Vec<Field>,
+    /// enum variants (name, discriminant expr)
+    pub variants: Vec<(String, String)>,
+    /// const/static: type and value expression
+    pub ty: String,
+    pub value: String,
+    pub mutable: bool,
+    /// foreign items: block abi, block attrs, block unsafety, index of the block in its module
+    pub abi: String,
+    pub block_attrs: Vec<String>,
+    pub block_unsafe: bool,
+    pub block_index: usize,
+    /// impl blocks
+    pub impl_trait: String,
+    pub impl_self: String,
+    pub methods: Vec<String>,
+    /// fn signature (foreign or not)
+    pub sig: String,
+    /// position within its module
+    pub index: usize,
+}
+
+#[derive(Clone, Debug, Default, PartialEq, Eq)]
+pub struct LayoutAssert {
+    pub module: String,
+    /// type expression tokens, normalised ("A", "W < :: std :: os :: raw :: c_int >")
+    pub ty: String,
+    pub size: Option<u64>,
+    pub align: Option<u64>,
+    pub offsets: Vec<(String, u64)>,
+    /// true for the old `#[test] fn` form
+    pub test_fn: bool,
+    pub messages: Vec<String>,
+}
+
+#[derive(Clone, Debug, Default)]
+pub struct Inventory {
+    pub items: Vec<Item>,
+    pub asserts: Vec<LayoutAssert>,
+}
+
+fn attr_strings(attrs: &[syn::Attribute]) -> (Vec<String>, Vec<String>, Vec<String>) {
+    let mut all = vec![];
+    let mut derives = vec![];
+    let mut reprs = vec![];
+    for a in attrs {
+        all.push(norm(a));
+        if a.path().is_ident("derive") {
+            if let Ok(list) = a.parse_args_with(
+                syn::punctuated::Punctuated::<syn::Path, syn::Token![,]>::parse_terminated,
+            ) {
+                for p in list {
+                    derives.push(norm(&p).replace(' ', ""));
+                }
+            }
+        }
+        if a.path().is_ident("repr") {
+            if let syn::Meta::List(l) = &a.meta {
+                let s = flat_tokens(&l.tokens.to_string());
+                // split on top-level commas
+                let mut cur = String::new();
+                let mut depth = 0;
+                for t in s {
+                    if t == "(" {
+                        depth += 1;
+                    }
+                    if t == ")" {
+                        depth -= 1;
+                    }
+                    if t == "," && depth == 0 {
+                        reprs.push(std::mem::take(&mut cur));
+                    } else {
+                        cur.push_str(&t);
+                    }
+                }
+                if !cur.is_empty() {
+                    reprs.push(cur);
+                }
+            }
+        }
+    }
+    (all, derives, reprs)
+}
+
+fn generics_of(g: &syn::Generics) -> Vec<String> {
+    g.params.iter().map(|p| norm(p)).collect()
+}
+
+fn fields_of(f: &syn::Fields) -> Vec<Field> {
+    f.iter()
+        .enumerate()
+        .map(|(i, f)| Field {
+            name: f.ident.as_ref().map(|i| i.to_string()).unwrap_or_else(|| i.to_string()),
+            vis: norm(&f.vis),
+            ty: norm(&f.ty),
+        })
+        .collect()
+}
+
+fn usize_lit(t: &str) -> Option<u64> {
+    t.strip_suffix("usize").and_then(|n| n.parse().ok())
+}
+
+/// Extract the tokens of a generic argument list starting at `toks[i] == "<"`; returns (text, index after ">")
+fn angle_group(toks: &[String], i: usize) -> Option<(String, usize)> {
+    if toks.get(i).map(|s| s.as_str()) != Some("<") {
+        return None;
+    }
+    let mut depth = 0i32;
+    let mut j = i;
+    let mut inner = vec![];
+    while j < toks.len() {
+        let t = toks[j].as_str();
+        match t {
+            "<" => {
+                depth += 1;
+                if depth > 1 {
+                    inner.push(t.to_string());
+                }
+            }
+            ">" => {
+                depth -= 1;
+                if depth == 0 {
+                    return Some((inner.join(" "), j + 1));
+                }
+                inner.push(t.to_string());
+            }
+            ">>" => {
+                depth -= 2;
+                if depth <= 0 {
+                    if depth == 0 {
+                        inner.push(">".into());
+                    }
+                    return Some((inner.join(" "), j + 1));
+                }
+                inner.push(t.to_string());
+            }
+            "->" | "=>" => inner.push(t.to_string()),
+            _ => inner.push(t.to_string()),
+        }
+        j += 1;
+    }
+    None
+}
+
+/// Decode a layout assertion block (either form) from the flat tokens of its body.
+fn decode_asserts(toks: &[String], module: &str, test_fn: bool) -> Option<LayoutAssert> {
+    let mut la = LayoutAssert { module: module.to_string(), test_fn, ..Default::default() };
+    let mut i = 0;
+    let mut saw = false;
+    while i < toks.len() {
+        let t = toks[i].as_str();
+        if (t == "size_of" || t == "align_of") && toks.get(i + 1).map(|s| s.as_str()) == Some("::") {
+            if let Some((ty, after)) = angle_group(toks, i + 2) {
+                // expect "(" ")" then "-" N (const form) or "," N (test form)
+                let n = toks.get(after + 3).and_then(|s| usize_lit(s));
+                let sep = toks.get(after + 2).map(|s| s.as_str());
+                if toks.get(after).map(|s| s.as_str()) == Some("(") && (sep == Some("-") || sep == Some(",")) {
+                    if let Some(n) = n {
+                        if la.ty.is_empty() {
+                            la.ty = ty.clone();
+                        }
+                        if ty == la.ty {
+                            if t == "size_of" {
+                                la.size = Some(n);
+                            } else {
+                                la.align = Some(n);
+                            }
+                            saw = true;
+                        }
+                    }
+                }
+                i = after;
+                continue;
+            }
+        }
+        if t == "offset_of" && toks.get(i + 1).map(|s| s.as_str()) == Some("!") && toks.get(i + 2).map(|s| s.as_str()) == Some("(") {
+            // offset_of ! ( TYPE , field ) - N usize
+            let mut j = i + 3;
+            let mut depth = 1;
+            let mut parts: Vec<String> = vec![];
+            while j < toks.len() && depth > 0 {
+                match toks[j].as_str() {
+                    "(" => depth += 1,
+                    ")" => depth -= 1,
+                    _ => {}
+                }
+                if depth > 0 {
+                    parts.push(toks[j].clone());
+                }
+                j += 1;
+            }
+            if let Some(comma) = parts.iter().rposition(|p| p == ",") {
+                let field = parts[comma + 1..].join("");
+                if toks.get(j).map(|s| s.as_str()) == Some("-") {
+                    if let Some(n) = toks.get(j + 1).and_then(|s| usize_lit(s)) {
+                        la.offsets.push((field, n));
+                        saw = true;
+                    }
+                }
+            }
+            i = j;
+            continue;
+        }
+        if t == "addr_of" && toks.get(i + 1).map(|s| s.as_str()) == Some("!") {
+            // addr_of ! ( ( * ptr ) . f ) as usize - ptr as usize } , N usize
+            let mut j = i + 2;
+            let mut field = String::new();
+            while j < toks.len() && toks[j] != "}" {
+                if toks[j] == "." {
+                    field = toks.get(j + 1).cloned().unwrap_or_default();
+                }
+                j += 1;
+            }
+            if toks.get(j + 1).map(|s| s.as_str()) == Some(",") {
+                if let Some(n) = toks.get(j + 2).and_then(|s| usize_lit(s)) {
+                    la.offsets.push((field, n));
+                    saw = true;
+                }
+            }
+            i = j;
+            continue;
+        }
+        if t.starts_with('"') && (t.contains("Size of") || t.contains("Align") || t.contains("Offset of")) {
+            la.messages.push(t.trim_matches('"').to_string());
+        }
+        i += 1;
+    }
+    if saw {
+        Some(la)
+    } else {
+        None
+    }
+}
+
+struct Walker {
+    inv: Inventory,
+}
+
+impl Walker {
+    fn walk(&mut self, items: &[syn::Item], module: &str) {
+        let mut block_index = 0usize;
+        for (index, it) in items.iter().enumerate() {
+            let mut item = Item { module: module.to_string(), index, text: norm(it), ..Default::default() };
+            match it {
+                syn::Item::Struct(s) => {
+                    item.kind = "struct".into();
+                    item.name = s.ident.to_string();
+                    (item.attrs, item.derives, item.reprs) = attr_strings(&s.attrs);
+                    item.generics = generics_of(&s.generics);
+                    item.fields = fields_of(&s.fields);
+                }
+                syn::Item::Union(s) => {
+                    item.kind = "union".into();
+                    item.name = s.ident.to_string();
+                    (item.attrs, item.derives, item.reprs) = attr_strings(&s.attrs);
+                    item.generics = generics_of(&s.generics);
+                    item.fields = s
+                        .fields
+                        .named
+                        .iter()
+                        .map(|f| Field { name: f.ident.as_ref().unwrap().to_string(), vis: norm(&f.vis), ty: norm(&f.ty) })
+                        .collect();
+                }
+                syn::Item::Enum(e) => {
+                    item.kind = "enum".into();
+                    item.name = e.ident.to_string();
+                    (item.attrs, item.derives, item.reprs) = attr_strings(&e.attrs);
+                    item.variants = e
+                        .variants
+                        .iter()
+                        .map(|v| (v.ident.to_string(), v.discriminant.as_ref().map(|d| norm(&d.1)).unwrap_or_default()))
+                        .collect();
+                }
+                syn::Item::Type(t) => {
+                    item.kind = "type".into();
+                    item.name = t.ident.to_string();
+                    (item.attrs, _, _) = attr_strings(&t.attrs);
+                    item.generics = generics_of(&t.generics);
+                    item.ty = norm(&*t.ty);
+                }
+                syn::Item::Const(c) => {
+                    item.kind = "const".into();
+                    item.name = c.ident.to_string();
+                    (item.attrs, _, _) = attr_strings(&c.attrs);
+                    item.ty = norm(&*c.ty);
+                    item.value = norm(&*c.expr);
+                    if item.name == "_" {
+                        let toks = flat_tokens(&c.expr.to_token_stream().to_string());
+                        if let Some(la) = decode_asserts(&toks, module, false) {
+                            item.kind = "layout_assert".into();
+                            item.name = la.ty.clone();
+                            self.inv.asserts.push(la);
+                        }
+                    }
+                }
+                syn::Item::Static(s) => {
+                    item.kind = "static".into();
+                    item.name = s.ident.to_string();
+                    (item.attrs, _, _) = attr_strings(&s.attrs);
+                    item.ty = norm(&*s.ty);
+                    item.mutable = matches!(s.mutability, syn::StaticMutability::Mut(_));
+                }
+                syn::Item::Fn(f) => {
+                    item.kind = "fn".into();
+                    item.name = f.sig.ident.to_string();
+                    (item.attrs, _, _) = attr_strings(&f.attrs);
+                    item.sig = norm(&f.sig);
+                    let is_test = f.attrs.iter().any(|a| a.path().is_ident("test"));
+                    if is_test && (item.name.starts_with("bindgen_test_layout_") || item.name.starts_with("__bindgen_test_layout_")) {
+                        let toks = flat_tokens(&f.block.to_token_stream().to_string());
+                        if let Some(la) = decode_asserts(&toks, module, true) {
+                            item.kind = "layout_assert".into();
+                            self.inv.asserts.push(la);
+                        }
+                    }
+                }
+                syn::Item::Impl(im) => {
+                    item.kind = "impl".into();
+                    item.impl_self = norm(&*im.self_ty);
+                    item.impl_trait = im.trait_.as_ref().map(|t| norm(&t.1)).unwrap_or_default();
+                    item.generics = generics_of(&im.generics);
+                    item.name = if item.impl_trait.is_empty() { item.impl_self.clone() } else { format!("{} for {}", item.impl_trait, item.impl_self) };
+                    (item.attrs, _, _) = attr_strings(&im.attrs);
+                    item.methods = im
+                        .items
+                        .iter()
+                        .filter_map(|i| match i {
+                            syn::ImplItem::Fn(f) => Some(f.sig.ident.to_string()),
+                            syn::ImplItem::Const(c) => Some(c.ident.to_string()),
+                            _ => None,
+                        })
+                        .collect();
+                }
+                syn::Item::Use(u) => {
+                    item.kind = "use".into();
+                    item.name = norm(&u.tree);
+                }
+                syn::Item::Mod(m) => {
+                    let name = m.ident.to_string();
+                    let path = if module.is_empty() { name.clone() } else { format!("{module}::{name}") };
+                    if let Some((_, content)) = &m.content {
+                        // a module is recorded as a declaration (without content) and walked
+                        item.kind = "mod".into();
+                        item.name = name;
+                        (item.attrs, _, _) = attr_strings(&m.attrs);
+                        item.text = format!("mod {}", item.name);
+                        self.inv.items.push(item);
+                        self.walk(content, &path);
+                        continue;
+                    }
+                    item.kind = "mod_decl".into();
+                    item.name = name;
+                }
+                syn::Item::ForeignMod(fm) => {
+                    let abi = fm.abi.name.as_ref().map(|n| n.value()).unwrap_or_else(|| "C".into());
+                    let (battrs, _, _) = attr_strings(&fm.attrs);
+                    for fi in &fm.items {
+                        let mut f = Item {
+                            module: module.to_string(),
+                            index,
+                            text: norm(fi),
+                            abi: abi.clone(),
+                            block_attrs: battrs.clone(),
+                            block_unsafe: fm.unsafety.is_some(),
+                            block_index,
+                            ..Default::default()
+                        };
+                        match fi {
+                            syn::ForeignItem::Fn(ff) => {
+                                f.kind = "foreign_fn".into();
+                                f.name = ff.sig.ident.to_string();
+                                (f.attrs, _, _) = attr_strings(&ff.attrs);
+                                f.sig = norm(&ff.sig);
+                            }
+                            syn::ForeignItem::Static(fs) => {
+                                f.kind = "foreign_static".into();
+                                f.name = fs.ident.to_string();
+                                (f.attrs, _, _) = attr_strings(&fs.attrs);
+                                f.ty = norm(&*fs.ty);
+                                f.mutable = matches!(fs.mutability, syn::StaticMutability::Mut(_));
+                            }
+                            syn::ForeignItem::Type(ft) => {
+                                f.kind = "foreign_type".into();
+                                f.name = ft.ident.to_string();
+                            }
+                            _ => {
+                                f.kind = "foreign_other".into();
+                            }
+                        }
+                        self.inv.items.push(f);
+                    }
+                    block_index += 1;
+                    continue;
+                }
+                syn::Item::Macro(m) => {
+                    item.kind = "macro".into();
+                    item.name = norm(&m.mac.path);
+                }
+                _ => {
+                    item.kind = "other".into();
+                }
+            }
+            self.inv.items.push(item);
+        }
+    }
+}
+
+pub fn inventory(text: &str) -> Result<Inventory, String> {
+    let file = syn::parse_file(text).map_err(|e| format!("syn: {e}"))?;
+    let mut w = Walker { inv: Inventory::default() };
+    w.walk(&file.items, "");
+    Ok(w.inv)
+}
+
+pub const HELPER_TYPES: &[&str] = &[
+    "__BindgenBitfieldUnit",
+    "__BindgenUnionField",
+    "__IncompleteArrayField",
+    "__BindgenOpaqueArray",
+    "__BindgenOpaqueArray8",
+    "__BindgenComplex",
+    "__BindgenFloat16",
+    "__BindgenLongDouble",
+];
+
+impl Inventory {
+    pub fn is_helper(name: &str) -> bool {
+        HELPER_TYPES.iter().any(|h| name == *h || name.starts_with(&format!("{h} "))) || name.ends_with("__bindgen_vtable")
+    }
+    pub fn types(&self) -> impl Iterator<Item = &Item> {
+        self.items.iter().filter(|i| matches!(i.kind.as_str(), "struct" | "union" | "enum" | "type"))
+    }
+    pub fn find(&self, kind: &str, name: &str) -> Option<&Item> {
+        self.items.iter().find(|i| i.kind == kind && i.name == name)
+    }
+    pub fn find_type(&self, name: &str) -> Option<&Item> {
+        self.types().find(|i| i.name == name)
+    }
+    pub fn assert_for(&self, module: &str, ty: &str) -> Vec<&LayoutAssert> {
+        self.asserts.iter().filter(|a| a.module == module && a.ty == ty).collect()
+    }
+    /// name -> canonical description used by order-independence comparisons
+    pub fn type_facts(&self) -> BTreeMap<String, String> {
+        let mut m = BTreeMap::new();
+        for t in self.types() {
+            if Self::is_helper(&t.name) {
+                continue;
+            }
+            let key = format!("{}::{}", t.module, t.name);
+            let fields: Vec<String> = t.fields.iter().map(|f| format!("{}:{}", f.name, f.ty)).collect();
+            let asserts: Vec<String> = self
+                .assert_for(&t.module, &t.name)
+                .iter()
+                .map(|a| format!("size={:?} align={:?} offsets={:?}", a.size, a.align, a.offsets))
+                .collect();
+            let mut impls: Vec<String> = self
+                .items
+                .iter()
+                .filter(|i| i.kind == "impl" && i.module == t.module && (i.impl_self == t.name || i.impl_self.starts_with(&format!("{} <", t.name))))
+                .map(|i| format!("impl {} [{}]", i.name, i.methods.join(",")))
+                .collect();
+            impls.sort();
+            let mut derives = t.derives.clone();
+            derives.sort();
+            m.insert(
+                key,
+                format!(
+                    "kind={} derives={:?} reprs={:?} generics={:?} fields={:?} variants={:?} alias={} asserts={:?} impls={:?}",
+                    t.kind, derives, t.reprs, t.generics, fields, t.variants, t.ty, asserts, impls
+                ),
+            );
+        }
+        m
+    }
+}
